@@ -339,8 +339,35 @@ func c17Match(w *fw.W, idx int, r *fw.Rand) {
 			return ds.NewIntVal(0), "", nil
 		})
 	}
-	regs := []func(){regRe, regStream, regNever, regAlt}
-	for _, i := range r.Perm(4) {
+	// never-matching stream parsers that read ahead and return without giving anything back:
+	// the library rewinds the stream for the next registered syntax
+	regGreedy := func() {
+		mode := r.Intn(3)
+		_ = vm.RegCustomDiceParser(func(ctx *ds.Context, s *ds.CustomDiceStream) (*ds.CustomDiceParseResult, error) {
+			switch mode {
+			case 0:
+				s.Read()
+				s.Read()
+				s.ReadDigits()
+				return nil, nil
+			case 1:
+				_, _, _ = s.ReadExpr("")
+				return &ds.CustomDiceParseResult{Matched: false}, nil
+			default:
+				for i := 0; i < 50; i++ {
+					if _, ok := s.Read(); !ok {
+						break
+					}
+				}
+				return &ds.CustomDiceParseResult{Matched: false}, nil
+			}
+		}, func(ctx *ds.Context, groups []string, _ any) (*ds.VMValue, string, error) {
+			log = append(log, "never-matching stream handler called")
+			return ds.NewIntVal(0), "", nil
+		})
+	}
+	regs := []func(){regRe, regStream, regNever, regAlt, regGreedy}
+	for _, i := range r.Perm(5) {
 		regs[i]()
 	}
 	var err error
